@@ -81,6 +81,7 @@ GROUP_OF = {**IDLE, "m_charge2": "charge_generation", "m_charge_scale": "charge_
             "m_scene": "scene_generation", "m_photon": "photon_collection", "noop": "phasing",
             "m_charge": "charge_generation", "m_pixel": "charge_collection", "m_pixel_x2": "charge_transfer",
             "m_signal": "charge_measurement", "m_signal_same": "signal_transfer", "m_image": "readout_electronics",
+            "m_signal_cast": "signal_transfer", "m_image_cast": "readout_electronics",
             "m_data": "data_processing", "last": "data_processing"}
 
 
@@ -215,10 +216,15 @@ def build_pipeline(cfg, salt, track=False):
         idle("charge_measurement", "m_signal_idle")
         if debug:
             add("signal_transfer", "m_signal_same", {"signal": {"dtype": FLOATS[cfg["signal"]], "const": const}})
+            # a dtype-only change (same values): the record of this model must list the signal bucket
+            add("signal_transfer", "m_signal_cast",
+                {"signal": {"recast": "float32" if FLOATS[cfg["signal"]] == "float64" else "float64"}})
     im = _image_spec(cfg["image"], const)
     if im is not None:
         add("readout_electronics", "m_image", {"image": dict(im, reuse=reuse)})
         idle("readout_electronics", "m_image_idle")
+        if debug and cfg["image"] in ("u8", "u16"):
+            add("readout_electronics", "m_image_cast", {"image": {"recast": "uint32"}})
     if cfg["data"] != "none":
         add("data_processing", "m_data", {"data": cfg["data"]})
     # without debug the observer does not read the charge bucket (a read refreshes Charge's cache); the expected
